@@ -8,7 +8,6 @@ sys.path.insert(0, os.path.dirname(os.path.abspath(__file__)))
 from rules import props  # noqa: E402
 
 NA = {
-    "C10": "shortest-round-trip float formatting and literal-preserving decimal rewriting are numerical results over all doubles/literals; no structural clause that would not also fire on correct code (jq mode intentionally prints 17 significant digits)",
     "C24": "the oracle is an external binary's (jq 1.7.1) behaviour, not present as source; static analysis of one implementation cannot compare it with another",
 }
 
